@@ -29,7 +29,7 @@ LEVEL_NOTE = ("Relative to C03: ScalarBaseMult / ScalarMult / IsOnCurve are the 
               "without error exhibits SM3(x2'||M'||y2') = SM3(x2||M||y2) with [d']C1 <> [d]C1 and different input strings (an explicit collision), not a probability "
               "statement. Round trip: minimal premises p prime, associativity, [k]G finite (the _min theorems); associativity itself is proved (SM2/ECAssoc.v), so the "
               "_noassoc theorems need p prime and [k]G finite only. Layout constants (prefix 04, 32-byte padding, offsets, minimal length) are read from the source "
-              "by the translator and compared in C02_source_layout_tied.")
+              "by the translator and compared in C02_source_layout_tied (bodies of unmodelled same-package helpers are accounted at their call sites, so the fingerprint does not depend on whether the padding block stands inline or in a helper); C02_source_pad_sites_tied proves every padding site, read with the source's constants, equal to the model's pad32 on every buffer.")
 TRUSTED_BASE = [
     "model coq/SM2/SM2Model.v, coq/SM2/DER.v written by hand from sm2/sm2.go and encoding/asn1; tied by the correspondence run of this check",
     "specification coq/SM2/SM2Spec.v typed from GM/T 0003.4 over EC/SM2Curve.v and SM3/SM3Spec.v; the python oracle reproduces the GM/T 0003.5 encryption example",
